@@ -4,3 +4,4 @@ cd /verif; n=$1; shift
 git -C /repo apply /verif/seeded/$n/patch.diff || exit 2
 for p in "$@"; do ./check $p --tier quick 2>&1 | grep -E "VIOLATION|quick seed" | cut -c1-330 | head -4; done
 git -C /repo checkout -- .; git -C /repo clean -fdq; git -C /verif checkout -- evidence
+./check --extract >/dev/null 2>&1   # generated files back to the clean tree
